@@ -27,6 +27,7 @@ type histCfg struct {
 	FinalReopen bool // every fresh history ends with clean shutdown + restart + check (pages re-read from disk)
 	Walk        bool // run the tree walker after every fresh event
 	OnlyWalk    bool // judge only the walker (and crashes/hangs of tree code); other oracles belong to other properties
+	TickInStmt  bool // C04: the timer may fire while one more DML statement is between its page changes and its log append
 	AltSchemas  bool // the tables t1, t2, t3 are declared with other columns than in every other config (same names)
 }
 
